@@ -57,7 +57,12 @@ def _drive_one(driver, scns, work, idx, env_extra, timeout):
     env = dict(os.environ)
     env.update({'PYTHONPATH': REPO, 'PYTHONDONTWRITEBYTECODE': '1', 'PYTHONHASHSEED': '0', 'PJRPC_VERIF': '1'})
     env.update(env_extra or {})
-    p = subprocess.run([VENV_PY, os.path.join(VERIF, 'mbt', 'drivers', driver + '.py'), sp, tp], env=env,
+    cmd = [VENV_PY]
+    if os.environ.get('VERIF_COVERAGE'):
+        # tooling only (tools/coverage_report.py): which lines of pjrpc do the drivers execute at all
+        cmd += ['-m', 'coverage', 'run', '--parallel-mode', '--branch', '--source', os.path.join(REPO, 'pjrpc'),
+                '--data-file', os.path.join(os.environ['VERIF_COVERAGE'], '.coverage')]
+    p = subprocess.run(cmd + [os.path.join(VERIF, 'mbt', 'drivers', driver + '.py'), sp, tp], env=env,
                        stdout=subprocess.PIPE, stderr=subprocess.PIPE, text=True, timeout=timeout, cwd=work)
     if p.returncode != 0 or not os.path.exists(tp):
         raise Machinery('driver %s failed (rc=%s): %s' % (driver, p.returncode, p.stderr[-3000:]))
